@@ -563,6 +563,7 @@ func runC11(rec *common.Recorder, idx uint64, seed uint64, conc bool) bool {
 	c := &c11{cc: cc, conc: conc, counts: map[string]int64{}, barrCnt: map[int]int{}}
 	c.setup(rng.Fork())
 	alive := true
+	hadViol := false
 	if conc {
 		setPolicy(rng.Uint64()|1, ansSites)
 		alive = c.runConc(rec, idx, rng)
@@ -571,6 +572,7 @@ func runC11(rec *common.Recorder, idx uint64, seed uint64, conc bool) bool {
 		alive = c.runSeq(rec, idx, rng)
 	}
 	cc.openAll()
+	hadViol = cc.numViol() > 0
 	mode := "c11seq_"
 	if conc {
 		mode = "c11conc_"
@@ -598,7 +600,7 @@ func runC11(rec *common.Recorder, idx uint64, seed uint64, conc bool) bool {
 		}
 		cc.flush(map[string]interface{}{"script": c.script, "caps_at": c.posCap, "events": tail(evs, 200)})
 	}
-	return alive && !cc.dead
+	return alive && !cc.dead && !hadViol
 }
 
 func (c *c11) runSeq(rec *common.Recorder, idx uint64, rng *common.RNG) bool {
@@ -977,18 +979,21 @@ func (c *c11) planConc(rng *common.RNG) {
 }
 
 func (c *c11) barrier(id int) {
-	g := c.barriers[id]
 	c.barrMu.Lock()
 	c.barrCnt[id]++
 	n := c.barrCnt[id]
-	if n == 1 {
-		g.arm()
-	}
 	c.barrMu.Unlock()
-	if n == 1 {
-		g.pass()
-	} else {
-		g.open()
+	if n >= 2 {
+		return
+	}
+	for i := 0; i < 2000; i++ {
+		runtime.Gosched()
+		c.barrMu.Lock()
+		n = c.barrCnt[id]
+		c.barrMu.Unlock()
+		if n >= 2 {
+			return
+		}
 	}
 }
 
@@ -1065,9 +1070,6 @@ func (c *c11) worker(w int) {
 	atomic.StoreInt32(&c.anyFinished, 1)
 	for _, pc := range c.pcs {
 		pc.gate.open()
-	}
-	for _, b := range c.barriers {
-		b.force()
 	}
 }
 
